@@ -184,3 +184,12 @@ Theorem stream_target_delete_exact :
               to_strings false (gp_of_opt (n_prefix n)) ++ to_strings false d = ["*"%string].
 Proof. exact is_target_delete_spec. Qed.
 Print Assumptions stream_target_delete_exact.
+
+(** 8. The event-driven suppression step of gnmiUpdate is total over every pair
+    of stored / new updates, whatever their value encodings (typed value,
+    deprecated value only, neither, both): it reads the [Val] fields only. *)
+Theorem suppression_step_total :
+  forall (old new : upd) w, wire_upd old = true -> wire_upd new = true ->
+    equal_gen false (u_val old) (u_val new) <> Panic w.
+Proof. exact suppression_step_total_lemma. Qed.
+Print Assumptions suppression_step_total.
